@@ -74,13 +74,16 @@ CLAIMS.update({
    note=NOTE + "Arc counter overflow and allocation failure are out of scope; unwinding of user panics is C18; hanging is C08/C09.",
    technique="Rocq/Coq proof (inductive invariant over all schedules, Owicki-Gries) + trace correspondence"),
  "C16": dict(engine="ASModel",
-   text="Coq theorems over ASModel (local step theorems): Cache::load returns the cached value untouched when the stored pointer equals it and "
-        "otherwise performs exactly one load_full, releasing the previously cached value exactly once. " + TIE + " The oracle checks every "
-        "returned value against the write order (never unstored, never backwards, at least as new as any store completed before the call) on "
-        "1-3-preemption sweeps of a cache scenario and on generated cache programs.",
-   note=NOTE + "Partial: monotonicity/freshness over all schedules need the history invariant of C03 and a view model of the Relaxed comparison; "
-        "covered by the oracle only. MapCache is not modelled.",
-   technique="Rocq/Coq proof (step lemmas) + trace correspondence with a history oracle"),
+   text="Coq theorems over ASModel: C16_cache_linearizable (instrumented runs, all schedules, any number of threads and caches): a completed Cache::new / Cache::load leaves in the "
+        "cache a value the underlying container stored in one of the states between the call and the return - on the hit path at the peek (the storage equals the cached address "
+        "then), on the miss path at the linearization instant of the inner load_full - hence never an unstored value and at least as new as every store completed before the call; "
+        "successive loads of one cache are monotone (cache_loads_monotone); step theorems: a hit touches nothing, a miss performs exactly one load_full and releases the previously "
+        "cached value exactly once. " + TIE + " The oracle checks every returned value against the write order on 1-3-preemption sweeps, the grid of the cache A-B-A shape (g06) and "
+        "generated cache programs.",
+   note=NOTE + "Hypotheses of the run theorem: no set_generation, no generation counter within 4 of wrapping, and no thread faults in the run (fault freedom, C01, is proved for "
+        "programs without Cache commands, so it stays a hypothesis here; reference counts of the cached value are covered by the oracle only). The Relaxed comparison read is modelled "
+        "sequentially consistent. MapCache is not modelled.",
+   technique="Rocq/Coq proof (instrumented runs, inductive invariant over all schedules) + trace correspondence with a history oracle"),
  "C18": dict(engine="ASModel",
    text="Coq theorems over ASModel with a panicking rcu closure (panic on a chosen attempt, allocation on earlier ones): the unwind is exactly "
         "the drop of the guard rcu holds, no step of it writes any container, the call reports the panic; a computed run shows container and "
@@ -210,7 +213,7 @@ CLAIMS["C14"] = dict(engine="SeqModel",
    technique="Rocq/Coq proof (simulation between specification and per-strategy sequential models, induction over programs) + extracted-model differential testing on the real crate")
 
 RUNOK = ("for every run from an initial configuration within Main.RunOK (initial values null or valid addresses; no program uses the set_generation hook or Cache; in "
-         "every state no generation counter within 4 of wrapping - which GenLen.v derives for every run of fewer than 2^62 steps (RunOKLen) -, destination handles of commands empty, clone sources not dropped - conditions on the test program, "
+         "every state no generation counter within 4 of wrapping - which GenLen.v derives for every run of fewer than 2^62 steps (RunOKLen) -, destination handles of commands empty, clone sources not dropped - conditions on the test program that ProgWF.v derives from a decidable well-formedness of the program text (RunStatic), "
          "checked by an extracted mirror on every correspondence run and counted in the evidence; allocator returns addresses that are not live, not null, not the empty-slot marker)")
 MASTER = ("The proof is the inductive invariant Main.Master (about 20 000 lines of Coq, no axioms): node ownership and per-program-point assertions (WF2), reservation counting and "
           "generation uniqueness (GenInv), envelope exclusivity (EnvInv), exact accounting (AccInv), slot coverage (ProtInv'), stack typing, and 'no thread has faulted', "
